@@ -577,13 +577,22 @@ pub fn eval_c11_seq(case: &Case) -> Outcome {
     judge_c11_quiescent(&run_seq(case))
 }
 
-pub const DFS_MAX_PREEMPT: usize = 2;
-pub const DFS_MAX_LEAVES: u64 = 4000;
+/// (max preemptions, max schedules per program): quick tier 2 / 4000, thorough tier 3 / 20000
+pub fn dfs_bounds() -> (usize, u64) {
+    static T: std::sync::OnceLock<bool> = std::sync::OnceLock::new();
+    let thorough = *T.get_or_init(|| std::env::var("VERIF_DFS_DEEP").is_ok());
+    if thorough {
+        (3, 20_000)
+    } else {
+        (2, 4_000)
+    }
+}
 
 /// Enumerates every schedule of the case's program with at most DFS_MAX_PREEMPT preemptions
 /// (stateless DFS with replay). The first violating schedule is returned as the witness case.
 pub fn dfs(case: &Case, judge: fn(&History) -> Outcome) -> Outcome {
-    let mut ch = DfsChooser::new(DFS_MAX_PREEMPT);
+    let (max_preempt, max_leaves) = dfs_bounds();
+    let mut ch = DfsChooser::new(max_preempt);
     let mut leaves = 0u64;
     let mut any_nontrivial = false;
     let mut classes: Vec<&'static str> = vec![];
@@ -613,7 +622,7 @@ pub fn dfs(case: &Case, judge: fn(&History) -> Outcome) -> Outcome {
         } else if classes.is_empty() {
             classes = o.classes;
         }
-        if leaves >= DFS_MAX_LEAVES {
+        if leaves >= max_leaves {
             truncated = true;
             break;
         }
@@ -780,6 +789,9 @@ fn seq_of(mut c: GenCfg, thorough: bool) -> GenCfg {
 
 // ------------------------------------------------------------------------------------------------
 
+/// multiplier of the quick budgets of all campaigns of the schedule engine
+const E1_BOOST: u64 = 40;
+
 struct Plan {
     name: &'static str,
     cfg: GenCfg,
@@ -791,7 +803,8 @@ struct Plan {
 fn run_plans(ctx: &mut Ctx, plans: Vec<Plan>, rule: &str) {
     for p in plans {
         let cfg = p.cfg.clone();
-        let n = scale_cases(ctx, p.quick, p.thorough_factor);
+        // coroutine stacks are reused, which made the engine ~30x faster than when the budgets were first set
+        let n = scale_cases(ctx, p.quick * E1_BOOST, p.thorough_factor);
         if n == 0 || p.quick == 0 {
             continue;
         }
@@ -808,6 +821,9 @@ fn run_plans(ctx: &mut Ctx, plans: Vec<Plan>, rule: &str) {
 pub fn check(ctx: &mut Ctx) -> Option<Meta> {
     let thorough = ctx.tier == "thorough";
     let t = thorough;
+    if thorough {
+        std::env::set_var("VERIF_DFS_DEEP", "1");
+    }
     // small-scope exhaustive enumeration only in the thorough tier (quick: a small sample of it)
     let dfsq: u64 = 150;
     let (rule, plans): (String, Vec<Plan>) = match ctx.prop.as_str() {
